@@ -767,6 +767,7 @@ struct SigObj
   int lvl = 0; // forwarding level (recursion guard of the op language)
   void* up = nullptr; // trackable flavours: a private upstream signal holding this->make_slot() (see attach_up)
   bool dying = false; // the signal object is being destroyed (destroy_signal_object)
+  bool assigning = false; // destination of an assignment in progress: its shared_ptr is half-assigned, nobody may use it
   bool owned = false; // a functor family owns the object (ownG); the name is only an alias
   int name = -1;
   std::weak_ptr<OwnedSig> owner;
@@ -1697,6 +1698,13 @@ struct Interp
             g_lists_dying.pop_back();
         }
       } pop_dying{lp != nullptr};
+      struct Assigning
+      {
+        SigObj* a;
+        SigObj* b;
+        Assigning(SigObj* x, SigObj* y) : a(x), b(y) { a->assigning = b->assigning = true; }
+        ~Assigning() { a->assigning = b->assigning = false; }
+      } assigning(dst, src);
       with_sig(*dst, [cp, src](auto& d) {
         using Ty = std::remove_reference_t<decltype(d)>;
         Ty& s = *static_cast<Ty*>(src->p);
@@ -2558,7 +2566,8 @@ void query_all_signals()
     SigObj* g = kv.second;
     if (!g || g->dying)
       continue;
-    with_sig(*g, [](auto& s) {
+    const bool assigning = g->assigning;
+    with_sig(*g, [assigning](auto& s) {
       volatile std::size_t n = s.size();
       volatile bool e = s.empty();
       volatile bool b = s.blocked();
@@ -2574,7 +2583,7 @@ void query_all_signals()
       using Slot = typename Sig::slot_type;
       sigc::signal_base& sb = s;
       auto& impl = sb.*SigAccess::impl_member();
-      if (!impl)
+      if (!impl || assigning)
         return 0;
       for (const void* d : g_lists_dying)
         if (d == impl.get())
